@@ -7,6 +7,8 @@ p=[json.loads(l) for l in open('/verif/properties.jsonl') if json.loads(l)['id']
 wt=sys.argv[2] if len(sys.argv)>2 else f"/tmp/wt/{pid}"
 print(f"""You are working on a scratch git worktree of the Go project couchbase/sync_gateway at {wt} (Couchbase Sync Gateway: syncs JSON documents between Couchbase Lite and Couchbase Server; revision trees, channel access control, change feeds, replication). Work ONLY inside {wt} and your output directory {wt}-out. Never read or write /repo or /verif.
 
+NEVER use `git stash` (the stash is shared between all worktrees of this repository and other people are working in sibling worktrees): to set a change aside use `git diff > /some/file; git checkout -- .` and later `git apply /some/file`.
+
 Shell environment for every command (no network; nothing can be downloaded):
   export PATH=/opt/veriftools/go1.26.8/bin:$PATH GOFLAGS=-mod=mod GOPROXY=off GOSUMDB=off GOTOOLCHAIN=local; unset GOWORK
 Tests run offline against the in-memory rosmar/walrus bucket, e.g. `go test -vet=off -count=1 -timeout 25m ./db/...` (the db and rest packages take several minutes each; use -run to iterate, then a full package run to confirm). The machine is shared with other jobs, so timing-sensitive tests (TestActiveReplicatorMultiCollection, TestChangesFeedOnInheritedChannelsFromRoles*, TestLateSequenceErrorRecovery, TestPostChangesAdminChannelGrantRemovalWithLimit) can fail on the clean tree too, and auth TestInitOIDCClient / TestConcurrentSetConfig and base TestLogFilePathWritable always fail in this sandbox (no network / running as root); re-run a suspicious failure in isolation and on the clean tree before drawing a conclusion.
